@@ -103,4 +103,50 @@ theorem second_run_noop (le : P → P → Bool)
   rw [bisync_of_run le ge cname o.state _ 0 hrun]
   exact ⟨hplan, rfl, rfl, rfl⟩
 
+theorem both_changed_decision (xa yb : C) (z : Option (Fp C)) (hne : xa ≠ yb)
+    (h1 : z ≠ some (mkFp xa)) (h2 : z ≠ some (mkFp yb)) :
+    reconcilePath (some (mkFp xa)) (some (mkFp yb)) z = .conflict .bothChanged := by
+  simp only [reconcilePath, same_mkFp, hne, decide_false, Bool.false_eq_true, if_false]
+  cases z with
+  | none => rfl
+  | some zv =>
+    have e1 : Fp.same (mkFp xa) zv = false := by
+      rw [Fp.same_eq_decide]; simp; intro e; exact h1 (by rw [e])
+    have e2 : Fp.same (mkFp yb) zv = false := by
+      rw [Fp.same_eq_decide]; simp; intro e; exact h2 (by rw [e])
+    simp [e1, e2]
+
+/-- C06 (conflict outcome, whole run under NoNameClash): a divergent edit — both sides hold the path
+with different contents and neither equals the recorded base — resolves on BOTH sides to the winner
+(`ge` = greater BLAKE3) at the path and the loser at `cname path loser`
+(`<path>.conflict-<host>-<first 12 hex of the loser's hash>`). -/
+theorem conflict_outcome (le : P → P → Bool)
+    (trans : ∀ a b c, le a b → le b c → le a c) (total : ∀ a b, le a b || le b a)
+    (antisymm : ∀ a b, le a b → le b a → a = b) (ge : C → C → Bool) (cname : P → C → P) (s : State P C)
+    (nnc : NoNameClash ge cname s.A s.B (bisyncPlan le s))
+    (p : P) (xa yb : C) (hA : get s.A p = some xa) (hB : get s.B p = some yb) (hne : xa ≠ yb)
+    (h1 : baseOf s p ≠ some (mkFp xa)) (h2 : baseOf s p ≠ some (mkFp yb)) :
+    get (bisync le ge cname s).state.A p = some (winner ge xa yb) ∧
+    get (bisync le ge cname s).state.B p = some (winner ge xa yb) ∧
+    get (bisync le ge cname s).state.A (cname p (loser ge xa yb)) = some (loser ge xa yb) ∧
+    get (bisync le ge cname s).state.B (cname p (loser ge xa yb)) = some (loser ge xa yb) := by
+  obtain ⟨l, n, hrun, inv, _⟩ := bisync_run le trans total antisymm ge cname s nnc
+  rw [bisync_of_run le ge cname s l n hrun]
+  have hdec := both_changed_decision xa yb (baseOf s p) hne h1 h2
+  have hm : (p, Action.conflict .bothChanged) ∈ bisyncPlan le s := by
+    unfold bisyncPlan
+    rw [mem_reconcile]
+    refine ⟨Or.inl ?_, ?_, by simp⟩
+    · apply (lookup_isSome_iff (scan s.A) p).mp
+      rw [lookup_scan, hA]; rfl
+    · rw [lookup_scan, lookup_scan, hA, hB]
+      exact hdec.symm
+  obtain ⟨pa, pb⟩ := inv.atPath p _ hm
+  have hcc : ccName ge cname p (.conflict .bothChanged) (get s.A p) (get s.B p) = some (cname p (loser ge xa yb)) := by
+    rw [hA, hB]; rfl
+  obtain ⟨xa', yb', e1, e2, ca, cb⟩ := inv.atCopy p _ _ hm hcc
+  rw [hA] at e1; rw [hB] at e2; cases e1; cases e2
+  rw [hA, hB] at pa pb
+  exact ⟨by simpa [resolve] using pa, by simpa [resolve] using pb, ca, cb⟩
+
 end Copia.C06
